@@ -131,4 +131,22 @@ CHECKS = {
         "stages": [rapid("whitelist", "TestProp", 2400, 64000, qs=8, ts=16, qt=600, tt=5400),
                    rapid("magic", "TestMagic", 8, 200, qs=4, ts=8, qt=600, tt=3000, shrinktime="5s")],
     },
+    "C09": {
+        "title": "Applying through the safekeeper never yields a silently wrong result",
+        "level": "exploration",
+        "technique": "rapid property-based testing with generated fault sequences on the old build; oracle: error OR output == new build; undamaged => success",
+        "level_text": ("Generated patches (plain/optimized; reuse by block ranges, bsdiff series and whole-file copies) applied with the old build "
+                       "read through the signature-checking pool, after generated damage to old files only (bit flips in reused/unreused blocks, "
+                       "truncation at block boundaries +-1 / 0 / random, extension inside/to/past the last block, deletion). The model applies "
+                       "the same damage in memory to decide damaged vs undamaged. Damaged: error or exactly the new build. Undamaged: nil and new build."),
+        "level_note": "the old signature is the stream WritePatch emits when the old build is the 'new' side; damage is to regular files only.",
+        "rule": ("rapid draws (build pair, compression, optimized?, 0-2 damages). Non-trivial: a damage lands in a block that some op of the "
+                 "decoded patch reads. Distinct: SHA-1 of the spec."),
+        "assumptions": [],
+        "required_classes": {"quick": ["reuse:blockrange", "reuse:wholefile", "reuse:bsdiff", "outcome:damaged-rejected", "outcome:undamaged-accepted",
+                                        "damage:truncate-at-block-boundary", "damage:extend-inside-last-block"],
+                             "thorough": ["reuse:blockrange", "reuse:wholefile", "reuse:bsdiff", "outcome:damaged-rejected", "outcome:undamaged-accepted",
+                                          "damage:truncate-at-block-boundary", "damage:extend-inside-last-block", "damage:extend-file-of-exact-block-multiple", "damage:delete"]},
+        "stages": [rapid("safekeeper", "TestProp", 2400, 64000, qs=8, ts=16, qt=600, tt=5400)],
+    },
 }
